@@ -1,6 +1,7 @@
 (* C18: the cfg-split code of the two back-ends. *)
 From Coq Require Import List String Ascii Bool Arith.
 From O2o.Model Require Import Tok Syn Attr Ast.
+From O2o.Gen Require Import SynIdents.
 Import ListNotations.
 Open Scope list_scope.
 
@@ -45,3 +46,30 @@ Proof.
   destruct (str_in s keywords_s2_only); [reflexivity | cbn in H; congruence].
 Qed.
 
+
+(* the model's identifier classes ARE the two accept_as_ident functions of the syn versions Cargo.lock pins (lists regenerated
+   from the vendored sources on every run) *)
+Lemma str_in_In s l : str_in s l = true <-> In s l.
+Proof.
+  unfold str_in. rewrite existsb_exists. split.
+  - intros [x [Hx He]]. apply String.eqb_eq in He. subst. exact Hx.
+  - intro H. exists s. split; [exact H | apply String.eqb_refl].
+Qed.
+Lemma str_in_same_elements s l1 l2 :
+  forallb (fun x => str_in x l2) l1 = true -> forallb (fun x => str_in x l1) l2 = true -> str_in s l1 = str_in s l2.
+Proof.
+  intros H1 H2. rewrite forallb_forall in H1, H2.
+  destruct (str_in s l1) eqn:E1; destruct (str_in s l2) eqn:E2; try reflexivity.
+  - apply str_in_In in E1. apply H1 in E1. congruence.
+  - apply str_in_In in E2. apply H2 in E2. congruence.
+Qed.
+Lemma str_in_app s l1 l2 : str_in s (l1 ++ l2) = str_in s l1 || str_in s l2.
+Proof. unfold str_in. apply existsb_app. Qed.
+
+Theorem ident_classes_are_syn_s : forall s,
+    is_plain_ident S1 s = negb (str_in s syn1_refused_idents) /\ is_plain_ident S2 s = negb (str_in s syn2_refused_idents).
+Proof.
+  intro s. unfold is_plain_ident. split.
+  - rewrite andb_true_r. f_equal; try (apply str_in_same_elements; vm_compute; reflexivity).
+  - rewrite <- negb_orb, <- str_in_app. f_equal; try (apply str_in_same_elements; vm_compute; reflexivity).
+Qed.
